@@ -41,6 +41,8 @@ func runC10(c *Ctx) {
 	ruleNextStopsAtEOF(c, "C10.15")
 	ruleNoGlobalState(c, "C10.16", "sql", "engine")
 	ruleStatementTextUnmodified(c, "C10.17")
+	ruleEnumIntervalLoops(c, "C10.18")
+	ruleClauseOrder(c, "C10.19")
 }
 
 // ---- C10.1 --------------------------------------------------------------------
